@@ -215,8 +215,18 @@ def run(ctx):
     f = ctx.anchor(CORE + "serialization::ciphersuite_deserialize")
     if f:
         v = FnView.get(P, f)
-        idc = lambda t: mentions(t, lambda s: s[0] == "const" and "ID" in str(s[2])) or (t[0] == "const" and "uneval" in str(t[2]))
-        got = lambda t: mentions(t, lambda s: s[0] == "ok" and is_call(s[1], name="deserialize"))
+        # the compared values themselves, up to value-preserving views (as_str/as_ref/..): a comparison of lengths, prefixes or
+        # hashes of them is not the check
+        VIEW = ("as_str", "as_ref", "as_slice", "as_bytes", "deref", "borrow", "clone", "to_owned", "as_mut")
+
+        def peel_view(t):
+            while is_call(t) and t[1].rsplit("::", 1)[-1] in VIEW and len(t[2]) == 1:
+                t = t[2][0]
+            return t
+        is_id = lambda s: s[0] == "const" and ("Ciphersuite::ID" in str(s[2]) or str(s[2]).startswith("uneval:"))
+        short = lambda t: is_call(t, name="to_be_bytes") and is_call(t[2][0], name="crc32") and is_call(t[2][0][2][0], name="as_bytes") and is_id(t[2][0][2][0][2][0])
+        idc = lambda t: is_id(peel_view(t)) or short(peel_view(t)) or is_call(peel_view(t), name="short_id")
+        got = lambda t: peel_view(t)[0] == "ok" and is_call(peel_view(t)[1], name="deserialize")
         refusal(ctx, f, "SEP", "G45:other-ciphersuite-refused",
                 [("id!=C::ID", cmp_fact("eq", idc, got, False)), ("id!=C::ID", cmp_fact("eq", got, idc, False))], ok_sinks(f))
         # both encodings exist and each decodes the field it compares (the SEP above covers every path to Ok)
